@@ -47,7 +47,9 @@ def _min_dtype_for_encoding(data_encoding: encodings.DataEncoding):
     elif isinstance(data_encoding, encodings.FloatDataEncoding):
         nbits = data_encoding.size_in_bits
         datatype = "float"
-        if nbits == 32:
+        # Only IEEE 32-bit floats fit in a float32: e.g. MIL-STD-1750A has an 8-bit exponent without bias, so
+        # its smallest values are below the float32 range
+        if nbits == 32 and data_encoding.encoding in ("IEEE754", "IEEE754_1985"):
             datatype += "32"
         else:
             datatype += "64"
